@@ -117,8 +117,8 @@ def run_sampler(h, cfg):
         draws = [e for e in log if e[0] in ('expo', 'binomial', 'sample', 'truncexp')]
         kinds = [e[0] for e in draws]
         if len(kinds) < 3 or kinds[0] != 'expo' or kinds[1] != 'binomial' or kinds[2] != 'sample' or any(k != 'truncexp' for k in kinds[3:]):
-            h.fail('sampler-protocol', {'node': str(node), 'draws': kinds})
-            continue
+            # another (possibly correct) sampling scheme: this check can only read the duration/binomial/subset/truncated-delay one
+            raise symx.Inconclusive('fast_SIR sampler does not follow the duration/binomial/sample/truncated-exponential protocol: %s' % kinds)
         ex, bi, sa, tr = draws[0], draws[1], draws[2], draws[3:]
         D = ex[2]
         h.require('sampler-duration-rate', EQ(ex[1], simruns.rec_rate(r, node)), {'node': str(node), 'rate_used': show(ex[1])})
